@@ -690,7 +690,7 @@ func c13Explore(t *testing.T, c *ev.Collector, k c13Case) {
 func TestC13(t *testing.T) {
 	c := ev.New("C13")
 	defer func() { _ = c.Finish() }()
-	c.SetRule("stateless model checking under the controlled scheduler: G driver threads each run one complete call (pairwise distinct, call-tagged payloads of 3 B..5 kB, success and error outcomes, identity/gzip/custom compression, proto/json) on ONE shared Client and ONE shared Handler whose pools are deterministic LIFO stacks that poison released buffers; plus sender||receiver on a single bidi stream; yield points: every statement of duplex_http_call.go, every pool/compressor/codec/IO operation elsewhere in the library, every membrane operation; every schedule within the delay bound of two default schedulers (non-preemptive run-to-block, and round-robin at every yield point) is executed; oracle: each call's observation (messages, error code+text+metadata, echoed header and trailer) equals the same call run alone, no poisoned byte is user-visible, values handed to user code are unchanged at the end")
+	c.SetRule("stateless model checking under the controlled scheduler: G driver threads each run one complete call (pairwise distinct, call-tagged payloads of 3 B..5 kB, success and error outcomes, identity/gzip/custom compression, proto/json) on ONE shared Client and ONE shared Handler whose pools are deterministic LIFO stacks that poison released buffers; plus sender||receiver on a single bidi stream; plus sequential families (mixed peers, handler end-of-stream, truncated-after-honest, late-delivery: a response body that hands its bytes over late while the caller gives up and a second call is inside its payload read on the recycled buffer); yield points: every statement of duplex_http_call.go, every pool/compressor/codec/IO operation elsewhere in the library, every membrane operation; every schedule within the delay bound of two default schedulers (non-preemptive run-to-block, and round-robin at every yield point) is executed; oracle: each call's observation (messages, error code+text+metadata, echoed header and trailer) equals the same call run alone, no poisoned byte is user-visible, values handed to user code are unchanged at the end")
 	c.Assume("sequentially consistent interleavings at statement / visible-operation granularity (memory-model-level races are outside this technique; see DESIGN 7)",
 		"memhttp models net/http; deterministic LIFO pool maximises buffer reuse between the calls")
 	if ev.ReplayFile() != "" {
